@@ -264,7 +264,10 @@ func receiveUnaryResponse[T any](conn StreamingClientConn) (*Response[T], error)
 	if err := conn.Receive(new(T)); err == nil {
 		return nil, NewError(CodeUnknown, errors.New("unary stream has multiple messages"))
 	} else if err != nil && !errors.Is(err, io.EOF) {
-		return nil, NewError(CodeUnknown, err)
+		// Errors from StreamingClientConns are already coded. If the server sent
+		// an error after the response message, keep its code, details, and
+		// metadata instead of burying it in a CodeUnknown wrapper.
+		return nil, err
 	}
 	return &Response[T]{
 		Msg:     &msg,
